@@ -47,7 +47,8 @@ def build_model(prog):
     """-> (model, [IntVar]) built through the public API; raises whatever the API raises."""
     cp = importlib.import_module("solvor.cp")
     m = cp.Model()
-    xs = [m.int_var(lb, ub, "x%d" % i) for i, (lb, ub) in enumerate(prog["vars"])]
+    unnamed = set(prog.get("unnamed", ()))  # variables created WITHOUT a name (the library calls them _v<N> and leaves them out of the result dicts)
+    xs = [m.int_var(lb, ub) if i in unnamed else m.int_var(lb, ub, "x%d" % i) for i, (lb, ub) in enumerate(prog["vars"])]
     for c in prog["cons"]:
         kind = c[0]
         if kind == "lin":
@@ -296,6 +297,28 @@ def pinned_programs():
     return progs
 
 
+def unnamed_programs():
+    """Models with auxiliary variables that were given no name: the returned dicts list the named variables only, and each of them must
+    extend to a full solution; INFEASIBLE still means that NO assignment of all variables exists."""
+    progs = []
+    D2, D3 = (0, 1), (-1, 1)
+    combos = [
+        ([(0, 2), D2, D2], {1, 2}, [("lin", "v?w", [1, 2], [], False), ("lin", "v?k", [0], [1], False)]),
+        ([(0, 2), D2, D2], {1, 2}, [("lin", "v?k", [0], [1], False), ("lin", "v?w", [1, 2], [], False)]),
+        ([(5, 6), (5, 6), D3, D3], {2, 3}, [("alldiff", [2, 3]), ("alldiff", [0, 1])]),
+        ([(0, 2), D2, D2], {1, 2}, [("lin", "v+w?u", [1, 2, 0], [], True)]),
+        ([(0, 2), D3, D3, D2], {1, 2, 3}, [("alldiff", [1, 2, 3])]),
+        ([(0, 3), D2, (0, 2)], {1}, [("lin", "v+k?w", [1, 2], [1], False), ("lin", "v?w", [0, 2], [], True)]),
+        ([(0, 1), D2, D2], {1, 2}, [("lin", "v?w", [1, 2], [], False), ("lin", "v+w?u", [1, 2, 0], [], True)]),
+        ([(0, 2), (0, 2), (0, 2)], {2}, [("alldiff", [0, 1, 2])]),
+        ([(0, 2), D2, D2], {1, 2}, [("sum", "eq", [0, 1, 2], 3)]),
+        ([(0, 1), (2, 2), D2], {1, 2}, [("lin", "v?w", [0, 2], [], False)]),
+    ]
+    for doms, un, cons in combos:
+        progs.append({"vars": doms, "unnamed": sorted(un), "cons": cons})
+    return progs
+
+
 def sum_programs():
     """Systematic: sum_eq / sum_le / sum_ge with 1..5 terms over 0/1 and mixed domains, targets in the interior of the reachable range."""
     progs = []
@@ -319,4 +342,7 @@ def prog_from_json(p):
     for c in p["cons"]:
         c = list(c)
         cons.append(tuple(c))
-    return {"vars": [tuple(v) for v in p["vars"]], "cons": cons}
+    out = {"vars": [tuple(v) for v in p["vars"]], "cons": cons}
+    if p.get("unnamed"):
+        out["unnamed"] = list(p["unnamed"])
+    return out
